@@ -35,15 +35,29 @@ ASSUMPTIONS = ["std::vector / std::stack of libstdc++ 12 are the reference for s
                "side; the model still has to predict the implementation exactly"]
 TRUSTED = ["hand model Tetl/C01/Model.lean + Step.lean tied to the source by the correspondence run (R1) on every run",
            "spec Tetl/C01/Spec.lean validated against libstdc++ (R2) on every run"]
+_P = "Tetl.C01.Props."
+_STEP = [_P + "step_refines", _P + "history_refines"]
 THEOREMS = {
-    "push": ["step_refines", "emplaceBack_eq"], "push_rv": ["step_refines"], "emplace_back": ["step_refines"],
-    "pop": ["step_refines"], "insert": ["insertFill_eq", "rotate_eq"], "insert_rv": ["moveInsert_eq", "rotate_eq"],
-    "emplace": ["moveInsert_eq", "rotate_eq"], "insert_fill": ["insertFill_eq", "rotate_eq"],
-    "insert_range": ["insertRange_eq", "rotate_eq"], "move_insert": ["moveInsert_eq", "rotate_eq"],
-    "erase": ["eraseRange_eq"], "erase_range": ["eraseRange_eq"], "resize": ["resize_eq"], "resize_val": ["resizeVal_eq"],
-    "assign_fill": ["assignFill_eq"], "assign_range": ["assignRange_eq"], "erase_if": ["eraseIf_eq"],
-    "erase_val": ["eraseIf_eq"], "cmp": ["relOps_eq"], "swap": ["swapVec_eq"], "swap_free": ["swapVec_eq"],
-    "try_push": ["tryPush_full", "ipvTry_eq"], "api_bits": ["size_fits"],
+    "push": _STEP, "push_rv": _STEP, "emplace_back": _STEP, "pop": _STEP,
+    "insert": _STEP + [_P + "insertFill_refines", _P + "rotate_eq"],
+    "insert_rv": _STEP + [_P + "insertRange_refines", _P + "rotate_eq"],
+    "emplace": _STEP + [_P + "insertRange_refines", _P + "rotate_eq"],
+    "insert_fill": _STEP + [_P + "insertFill_refines", _P + "rotate_eq"],
+    "insert_range": _STEP + [_P + "insertRange_refines", _P + "rotate_eq"],
+    "move_insert": _STEP + [_P + "insertRange_refines", _P + "rotate_eq"],
+    "erase": _STEP + [_P + "eraseRange_refines"], "erase_range": _STEP + [_P + "eraseRange_refines"],
+    "resize": _STEP, "resize_val": _STEP, "assign_fill": _STEP, "assign_range": _STEP, "clear": _STEP,
+    "ctor_n": _STEP, "ctor_n_val": _STEP, "ctor_range": _STEP,
+    "erase_if": _STEP + [_P + "eraseIf_refines"], "erase_val": _STEP + [_P + "eraseIf_refines"],
+    "cmp": _STEP + [_P + "relOps_refines"], "swap": _STEP + [_P + "swap_refines"], "swap_free": _STEP + [_P + "swap_refines"],
+    "copy_ctor": _STEP + [_P + "copy_independent", _P + "unary_frame"], "copy_assign": _STEP, "move_ctor": _STEP,
+    "move_assign": _STEP,
+    "try_push": _STEP + [_P + "tryPush_full"], "try_push_rv": _STEP + [_P + "tryPush_full"],
+    "try_emplace": _STEP + [_P + "tryPush_full"], "unchecked_push": _STEP, "unchecked_push_rv": _STEP,
+    "unchecked_emplace": _STEP,
+    "api_bits": [_P + "size_fits", _P + "setSize_never_truncates"],
+    "new": [_P + "initSize_partial", _P + "initSize_counterexample", _P + "history_refines_init"],
+    "api_assign": [_P + "ipv_assign_unsupported"],
 }
 SEARCH_CAP = 300000
 MOVED = 9999
@@ -478,6 +492,11 @@ LEVEL_NOTE = ("Trusted: Lean kernel + propext/Classical.choice/Quot.sound; fidel
               "ASan/UBSan; libstdc++ as oracle for R2. Values the standard leaves unspecified (moved-from vectors) are "
               "masked on the spec side only. Members listed in coverage.correspondence_only have no theorem.")
 # members modelled and compared on every run but without a Lean theorem of their own
-CORRESPONDENCE_ONLY = ["rbegin/rend/cbegin/cend/data/operator[] const overloads (observed by the harness only)",
-                       "smallest_size_t width (api_bits: compared with the model's threshold chain; size_fits is proved about the model)",
-                       "static type facts (assignability) of api_assign"]
+CORRESPONDENCE_ONLY = [
+    "observers begin/end/cbegin/cend/rbegin/rend/data/operator[]/front/back/size/empty/full/capacity/max_size, const and "
+    "non-const (the model's state *is* the observable list; the harness cross-checks all of them on every line)",
+    "width of smallest_size_t<N> (api_bits: compared with the model's threshold chain; size_fits is proved about the model)",
+    "default- vs value-initialisation of a new object (initSize: compared on `new ... init=` lines)",
+    "stack::emplace / static_vector::emplace_back return type (void, std returns a reference): not compared",
+    "moved-from contents of a vector (model: mvd; spec: unspecified) — model vs implementation only",
+]
